@@ -265,10 +265,12 @@ def sim_kwargs(method, key=None):
     return kw, spelling
 
 
-def simulate(m, db, N, method, plan=None, key=None):
+def simulate(m, db, N, method, plan=None, key=None, dev=False):
     span = START >> START + (N - 1)
     buf = io.StringIO()
     kw, _ = sim_kwargs(method, key)
+    if dev:
+        kw["deviation"] = True      # data are deviations from the steady state: x - xbar, x / xbar for a log-variable
     with contextlib.redirect_stdout(buf):
         return m.simulate(db, span, plan=plan, **kw)
 
@@ -330,7 +332,7 @@ def attach_variants(rng: Rng, case):
         build_multi(spec)
     except Exception:
         return None
-    return dict(case, spec=spec, stages=None, stage_methods=None)
+    return dict(case, spec=spec, stages=None, stage_methods=None, deviation=False, zero_targets=[])
 
 
 def _gen_case_single(rng: Rng, force=None):
@@ -359,9 +361,15 @@ def _gen_case_single(rng: Rng, force=None):
     has_lead = any(sh > 0 for e in spec["eqs"] for _, _, sh in e["terms"])
     best = None
     stepped = rng.chance(0.3)
+    cluster = (not stepped) and n >= 2 and rng.chance(0.25)
     for _try in range(8):
         targets = rng.sample(cells, k)
         instruments = []
+        if cluster:
+            # two or three variables swapped with their own shocks at ONE date (handed to the plan as one swap_* call with a list of pairs)
+            t = rng.randint(0, N - 1)
+            targets = [(v, t) for v in rng.sample(names, rng.randint(2, min(3, n)))]
+            instruments = [(pre + "e" + v, t) for v, _ in targets]
         if stepped:
             # one variable swapped with its own shock on a grid of dates with step 2 or 3 (handed to the plan as one stepped Span)
             v, d = rng.choice(names), rng.choice([2, 2, 3])
@@ -374,7 +382,7 @@ def _gen_case_single(rng: Rng, force=None):
                 o = rng.choice(others)
                 targets.append(o)
                 instruments.append((pre + "e" + o[0], o[1]))
-        for (v, t) in ([] if stepped else targets):
+        for (v, t) in ([] if (stepped or cluster) else targets):
             if (method == "stacked_time" and mode == "unant") or rng.chance(0.5):
                 # stacked time treats every unanticipated date as a frame of its own: identification must hold date by date
                 dates = [t]
@@ -431,7 +439,11 @@ def _gen_case_single(rng: Rng, force=None):
         other = {"first_order": "stacked_time", "stacked_time": "first_order"}[method]
         may_switch = not (method == "first_order" and mode == "unant")
         stage_methods = [other if (may_switch and rng.chance(0.25)) else method for _ in stages]
-    return {"stages": stages, "stage_methods": stage_methods,
+    deviation = method == "first_order" and rng.chance(0.3)
+    if deviation and stage_methods:
+        stage_methods = ["first_order"] * len(stage_methods)     # deviation mode is a first-order feature
+    zero_targets = sorted(rng.sample(list(range(k)), rng.randint(1, k))) if rng.chance(0.3) else []
+    return {"stages": stages, "stage_methods": stage_methods, "deviation": deviation, "zero_targets": zero_targets,
             "spec": spec, "N": N, "mode": mode, "method": method, "targets": [list(c) for c in targets],
             "instruments": [list(c) for c in instruments], "truth": truth, "prior": prior,
             "background": [[list(c), v] for c, v in background], "init": init, "scramble": rng.chance(0.5),
@@ -493,7 +505,8 @@ def gen_mixed_case(rng: Rng, spec, m, N, method, k):
         ants = [i for i in every if modes[i] == "ant"]
         drop = set(rng.sample(ants, rng.randint(1, len(ants))))
         stages = [[i for i in every if i not in drop], every]
-    return {"stages": stages, "stage_methods": None, "modes": modes,
+    return {"stages": stages, "stage_methods": None, "modes": modes, "deviation": method == "first_order" and rng.chance(0.3),
+            "zero_targets": sorted(rng.sample(list(range(k)), rng.randint(1, k))) if rng.chance(0.3) else [],
             "spec": spec, "N": N, "mode": "mixed", "method": method, "targets": [list(c) for c in targets],
             "instruments": [list(c) for c in instruments], "truth": [dy(rng, -2, 2) for _ in instruments],
             "prior": [0.0 for _ in instruments], "background": [[list(c), v] for c, v in background],
@@ -643,7 +656,8 @@ def run_impl(case):
     m, ok = build_model(spec)
     names = spec["names"]
     span = START >> START + (N - 1)
-    db = ir.Databox.steady(m, span)
+    dev = bool(case.get("deviation"))
+    db = ir.Databox.steady(m, span, deviation=dev)
     for v, (a, b) in case["init"].items():
         # presample deviations from steady state (two periods back; unused ones are ignored by the simulator)
         for lag, d in ((1, a), (2, b)):
@@ -663,7 +677,7 @@ def run_impl(case):
     for sh in meas_names(spec)[1]:
         for t in mrng.sample(list(range(N)), mrng.randint(1, min(3, N))):
             set_cell(db, sh, t, dy(mrng, -2, 2))       # NON-ZERO measurement shocks in the input of every planned simulation
-    sim1 = simulate(m, db, N, method, key=form_key(case["scramble_seed"], "first-leg"))
+    sim1 = simulate(m, db, N, method, key=form_key(case["scramble_seed"], "first-leg"), dev=dev)
     skey = case["scramble_seed"]
     plan_class = PLAN_CLASSES[form_key(skey, "class") % len(PLAN_CLASSES)]
     plan = getattr(ir, plan_class)(m, span)
@@ -681,17 +695,30 @@ def run_impl(case):
         for idxs, status in ((sorted(want - active), True), (sorted(active - want), False)):
             # the dates of one name are handed over in one call, as a tuple/list in some order or as a (stepped, backward, contextual) Span
             groups: dict = {}
+            same_date: dict = {}
             for i in idxs:
                 (v, t), (sh, ts) = case["targets"][i], case["instruments"][i]
-                if t == ts and form_key(skey, si, i, "swap") % 3 == 0:
-                    # the documented one-call spelling of "exogenize v and endogenize sh at the same dates"
-                    obj, form = dates_arg([t], N, form_key(skey, si, "swap", i))
-                    forms_used.append(form.split("(")[0])
-                    spellings.append("swap_*")
-                    getattr(plan, "swap_" + suffix(i))(obj, (v, sh), **({} if status else {"status": False}))
+                if t == ts:
+                    same_date.setdefault((suffix(i), t), []).append(i)
+            swaps: dict = {}
+            for i in idxs:
+                (v, t), (sh, ts) = case["targets"][i], case["instruments"][i]
+                # the documented one-call spelling of "exogenize v and endogenize sh at the same dates"; pairs that share mode and date go
+                # into ONE swap_* call as a list of pairs (two thirds of them), a lone pair is written as a swap one time in three
+                shared = t == ts and len(same_date[(suffix(i), t)]) >= 2
+                if t == ts and form_key(skey, si, i, "swap") % 3 < (2 if shared else 1):
+                    swaps.setdefault((suffix(i), t), []).append(i)
                     continue
                 groups.setdefault(("exogenize_" + suffix(i), v), []).append(t)
                 groups.setdefault(("endogenize_" + suffix(i), sh), []).append(ts)
+            for (suf, t), members in swaps.items():
+                obj, form = dates_arg([t], N, form_key(skey, si, "swap", suf, t))
+                forms_used.append(form.split("(")[0])
+                pairs = [(case["targets"][i][0], case["instruments"][i][0]) for i in members]
+                how = form_key(skey, si, "pairs", suf, t) % 2
+                arg = pairs[0] if len(pairs) == 1 and how == 0 else (tuple(pairs) if how == 0 else list(pairs))
+                spellings.append("swap_*(one pair)" if len(pairs) == 1 else f"swap_*({len(pairs)} pairs in one call)")
+                getattr(plan, "swap_" + suf)(obj, arg, **({} if status else {"status": False}))
             for (meth, nm), ts_ in groups.items():
                 obj, form = dates_arg(ts_, N, form_key(skey, si, meth, nm, ts_))
                 forms_used.append(form.split("(")[0])
@@ -720,6 +747,14 @@ def run_impl(case):
         db2 = sim1.copy()
         for (sh, t), p in zip(sub["instruments"], sub["prior"]):
             set_cell(db2, sh, t, p)
+        zeroed = [i for i in (case.get("zero_targets") or []) if i in active]
+        for i in zeroed:
+            # a target of EXACTLY zero on the solution scale ("hold the gap at zero"; 1.0 for a log-variable, whose logarithm is zero):
+            # not taken from the first leg, so the round trip is not demanded of this stage, everything else is
+            v, t = case["targets"][i]
+            set_cell(db2, v, t, 1.0 if is_log(spec, v) else 0.0)
+        if zeroed:
+            sub["zeroed"] = True
         if case["scramble"]:
             r = Rng(case["scramble_seed"] + si)
             tset = {(v, t) for v, t in sub["targets"]}
@@ -732,7 +767,7 @@ def run_impl(case):
         out = {"m": m, "db1": db, "sim1": sim1, "db2": db2, "plan": plan, "forms": list(forms_used),
                "spellings": list(spellings) + [f"method:{sim_kwargs(stage_method, mkey)[1]}"]}
         try:
-            out["sim2"] = simulate(m, db2, N, stage_method, plan=plan, key=mkey)
+            out["sim2"] = simulate(m, db2, N, stage_method, plan=plan, key=mkey, dev=dev)
         except Exception as e:
             out["error"] = f"{type(e).__name__}: {str(e)[:120]}"
         if "sim2" in out and form_key(skey, si, "equiv") % 2 == 0:
@@ -744,7 +779,7 @@ def run_impl(case):
                     (v, t), (sh, ts) = case["targets"][i], case["instruments"][i]
                     getattr(canon, "exogenize_" + suffix(i))((START + t,), v, status=True)
                     getattr(canon, "endogenize_" + suffix(i))((START + ts,), sh, status=True)
-                out["canon"] = simulate(m, db2, N, stage_method, plan=canon)
+                out["canon"] = simulate(m, db2, N, stage_method, plan=canon, dev=dev)
             except Exception as e:
                 out["canon_error"] = f"{type(e).__name__}: {str(e)[:120]}"
         results.append((sub, out))
@@ -765,12 +800,13 @@ def all_names(spec):
 def impact_numeric(case, r):
     """M by unit perturbations of the plain simulator (independent of the plan code): rows targets, columns instruments"""
     m, N = r["m"], case["N"]
-    base = simulate(m, r["db2"], N, "first_order")
+    dev = bool(case.get("deviation"))
+    base = simulate(m, r["db2"], N, "first_order", dev=dev)
     cols = []
     for (sh, t) in case["instruments"]:
         d = r["db2"].copy()
         set_cell(d, sh, t, get_cell(d, sh, t) + 1.0)
-        s = simulate(m, d, N, "first_order")
+        s = simulate(m, d, N, "first_order", dev=dev)
         cols.append([lv(case["spec"], v, get_cell(s, v, tt)) - lv(case["spec"], v, get_cell(base, v, tt)) for v, tt in case["targets"]])
     return np.array(cols, dtype=float).T
 
@@ -778,10 +814,15 @@ def impact_numeric(case, r):
 def scale_of(case, r):
     names, us, vs = all_names(case["spec"])
     mx = 1.0
-    for nm in names + us + vs:
-        a = values(r["sim1"], nm, case["N"])
-        if a.size and np.all(np.isfinite(a)):
-            mx = max(mx, float(np.max(np.abs(a))))
+    for key in ("sim1", "sim2"):
+        # the magnitude of the numbers involved: the first leg and the planned output (a zeroed target of a log-variable with a large steady
+        # level moves the output by many orders of magnitude; rounding is relative to that)
+        if key not in r:
+            continue
+        for nm in names + us + vs:
+            a = values(r[key], nm, case["N"])
+            if a.size and np.all(np.isfinite(a)):
+                mx = max(mx, float(np.max(np.abs(a))))
     return mx
 
 
@@ -843,12 +884,13 @@ def oracle_case(ctx: Ctx, case, r, cond) -> bool:
         return good
     # (3) the output is a simulation: the plain simulator, fed with the output's shocks and initial condition, returns the output
     try:
-        again = simulate(r["m"], sim2, N, "first_order")
+        dev = bool(case.get("deviation"))
+        again = simulate(r["m"], sim2, N, "first_order", dev=dev)
         if case["method"] == "first_order":
             # (3m) every measurement variable satisfies its equation with the measurement shock as it came in (stacked_time leaves the
             # measurement block alone: there only "the shock is returned unchanged" is demanded, clause (2))
             for nm, sh, e in zip(mv, mw, spec.get("meas") or []):
-                rhs = sum(c * np.array([lv(spec, v, float(x)) for x in values(sim2, v, N)]) for c, v in e["terms"]) + values(db2, sh, N) + e["const"]
+                rhs = sum(c * np.array([lv(spec, v, float(x)) for x in values(sim2, v, N)]) for c, v in e["terms"]) + values(db2, sh, N) + (0.0 if dev else e["const"])
                 a = values(sim2, nm, N)
                 if not np.all(np.abs(a - rhs) <= tol):
                     t = int(np.argmax(np.abs(a - rhs)))
@@ -875,13 +917,13 @@ def oracle_case(ctx: Ctx, case, r, cond) -> bool:
             return X[v][t] if t >= 0 else pre[v][2 + t]
         for e in spec["eqs"]:
             for t in range(N - 1 if has_lead else N):
-                rhs = sum(c * val(v, t + sh) for c, v, sh in e["terms"]) + e["const"] \
+                rhs = sum(c * val(v, t + sh) for c, v, sh in e["terms"]) + (0.0 if case.get("deviation") else e["const"]) \
                     + values(sim2, "e" + e["lhs"], N)[t] + values(sim2, "ant_e" + e["lhs"], N)[t]
                 if not abs(X[e["lhs"]][t] - rhs) <= tol:
                     ctx.fail(f"equation-residual-{case['method']}-{case['mode']}", case, f"equation of {e['lhs']} at t={t}: {X[e['lhs']][t] - rhs!r}")
                     return False
     # (4) the round trip recovers shocks and path (tolerance only where the measured conditioning allows)
-    if cond <= COND_MAX:
+    if cond <= COND_MAX and not case.get("zeroed"):
         for nm in names + us + vs + mw:
             a, b = values(sim1, nm, N), values(sim2, nm, N)
             if not np.all(np.abs(a - b) <= tol):
@@ -913,7 +955,7 @@ def bits_text(tbl) -> str:
 def lean_request(case, r, order="col") -> str:
     m, N, spec = r["m"], case["N"], case["spec"]
     names, us, vs = all_names(spec)
-    sol = m._gets_solution()
+    sol = m._gets_solution(deviation=bool(case.get("deviation")))
     vec = m._get_dynamic_solution_vectors()
     qid_to_name = m.create_qid_to_name()
     _, curr_idx = vec.get_curr_transition_indexes()
@@ -1045,6 +1087,10 @@ def run_cases(ctx: Ctx, cases, with_model=True):
             tag = "stage>0:" if case.get("stage", 0) > 0 else ""
             ctx.count(f"{tag}cond_{case['method']}_{case['mode']}")
             ctx.count(f"{tag}targets_{len(case['targets'])}")
+            if case.get("deviation"):
+                ctx.count("deviation=True" + (" with log-variable target" if any(is_log(case["spec"], v) for v, _ in case["targets"]) else ""))
+            if case.get("zeroed"):
+                ctx.count("stages_with_exact_zero_targets(1.0 for log-variables)")
             if case["spec"].get("meas"):
                 ctx.count(f"with_measurement_block_and_nonzero_measurement_shocks:{case['method']}")
             if case["mode"] == "ant" and any(not c[0].startswith("ant_") and c[1] > 0 for c, _ in case["background"]):
